@@ -355,15 +355,18 @@ theorem listStep_ok {m0 : View} {st0 : Nat} {wc : WC} (h : Good m0 st0 wc) (lo :
     refine ⟨?_, fun _ => Or.inl rfl, fun c => by cases c⟩
     unfold WC.onListOther
     simp only
-    have h' : Good m0 st0 { wc.beginFull with crdInstalled := true } := hb.of_eq rfl rfl rfl rfl
     split
-    · have h'' : Good m0 st0 ({ wc.beginFull with crdInstalled := true, connected := false, listPolling := false,
-          watchPolling := false } : WC) := hb.of_eq rfl rfl rfl rfl
-      have h3 := h''.send_backendErr
-      split
-      · exact (sendDeletionsForAll_ok h3).1
-      · exact h3
-    · exact h'
+    · have hx : ∀ w : WC, w.res = wc.beginFull.res → w.old = wc.beginFull.old → w.out = wc.beginFull.out →
+          w.status = wc.beginFull.status →
+          Good m0 st0 (if (w.send .backendErr).sendDeletesOnConnFail then (w.send .backendErr).sendDeletionsForAll
+            else w.send .backendErr) := by
+        intro w a b c d
+        have g := (hb.of_eq a b c d).send_backendErr
+        split
+        · exact (sendDeletionsForAll_ok g).1
+        · exact g
+      exact hx _ rfl rfl rfl rfl
+    · exact hb.of_eq rfl rfl rfl rfl
   | ok kvs lrev =>
     simp only
     have l := processList_ok hb kvs
@@ -480,12 +483,12 @@ theorem eventLoop_ok {m0 : View} {st0 : Nat} (evs : List Ev) {wc : WC} (h : Good
       exact ih (wc := { wc with rev := r, errCount := 0 }) (h.of_eq rfl rfl rfl rfl) hs
     | errExpired =>
       simp only [eventLoop, processed]
-      exact ⟨h.of_eq rfl rfl rfl rfl, rfl, fun _ => rfl⟩
+      refine ⟨h.of_eq rfl rfl rfl rfl, ?_, ?_⟩ <;> intros <;> trivial
     | errOther =>
       simp only [eventLoop, processed]
       split
-      · exact ⟨h.of_eq rfl rfl rfl rfl, rfl, fun _ => rfl⟩
-      · exact ⟨h.of_eq rfl rfl rfl rfl, rfl, fun _ => rfl⟩
+      · refine ⟨h.of_eq rfl rfl rfl rfl, ?_, ?_⟩ <;> intros <;> trivial
+      · refine ⟨h.of_eq rfl rfl rfl rfl, ?_, ?_⟩ <;> intros <;> trivial
     | unknown =>
       simp only [eventLoop, processed]
       exact ih h hs
